@@ -19,8 +19,8 @@ _ST = (" Source tie (DESIGN.md section 16): the CURRENT text of {f} in /repo is 
 SRC_TIE = {
     "C03": _ST.format(f="typeutils._to_slot_size", t="XoGen.src_to_slot_size"),
     "C05": _ST.format(f="typeutils._to_slot_size", t="XoGen.src_to_slot_size"),
-    "C04": _ST.format(f="context._align, Chunk.overlaps, Chunk.merge", t="XoGen.src_align (alignments that are powers of two), src_chunk_overlaps, src_chunk_merge"),
-    "C12": _ST.format(f="context._align, Chunk.size, Chunk.overlaps, Chunk.merge", t="XoGen.src_align (alignments that are powers of two), src_chunk_size, src_chunk_overlaps, src_chunk_merge"),
+    "C04": _ST.format(f="context._align, Chunk.overlaps, Chunk.merge, XBuffer.grow (whole method), copy_to_native", t="XoGen.src_align (alignments that are powers of two), src_align_least, src_chunk_overlaps, src_chunk_merge, src_grow (the translated grow IS Alloc.Buf.grow), src_copy_to_native"),
+    "C12": _ST.format(f="context._align, Chunk.size, Chunk.overlaps, Chunk.merge", t="XoGen.src_align (alignments that are powers of two), src_align_least, src_chunk_size, src_chunk_overlaps, src_chunk_merge, src_grow"),
     "C01": _ST.format(f="array.get_c_strides / get_strides / get_offset / mk_order", t="XoGen.src_get_c_strides, src_get_strides, src_get_offset, src_item_offset, src_mk_order_*"),
     "C02": _ST.format(f="array.get_c_strides / get_strides", t="XoGen.src_get_c_strides, src_get_strides"),
     "C06": _ST.format(f="array.get_c_strides / get_strides / get_offset / mk_order", t="XoGen.src_get_c_strides, src_get_strides, src_get_offset, src_item_offset, src_mk_order_*"),
@@ -400,7 +400,7 @@ def main():
             "name": "source-to-lean translator",
             "path": "checks/pygen.py, lean/XoGen/ (Lake library XoGen: generated Src/*.lean + hand-written Tie*.lean)",
             "serves_properties": sorted(SRC_TIE),
-            "kind_free_text": "the arithmetic helpers of /repo (_to_slot_size, _align, get_c_strides, get_strides, get_offset, bound_check, mk_order, Chunk.size / overlaps / merge, the ten byte-moving buffer primitives) are "
+            "kind_free_text": "the arithmetic helpers of /repo (_to_slot_size, _align, get_c_strides, get_strides, get_offset, bound_check, mk_order, Chunk.size / overlaps / merge, the ten byte-moving buffer primitives, XBuffer.grow) are "
                               "regenerated as Lean definitions from the source text on every run; kernel-checked theorems state that "
                               "each equals the model's definition for all inputs",
         }],
